@@ -371,5 +371,8 @@ def run(ctx, rep):
     check_assembly(fx, rep, "C16.4", "deobfuscate_bytecode_signature", "byte_code_type_to_java_type")
     check_assembly(fx, rep, "C16.4", "deobfuscate_bytecode_signature_cache", "byte_code_type_to_java_type_cache")
     check_format_signature(fx, rep, "C16.4")
+    import api_rules as AR
+    AR.check_getters(fx, rep, "C16.api", "mapper::DeobfuscatedSignature")
+    AR.check_constructor(fx, rep, "C16.api", "mapper::DeobfuscatedSignature", "new", {"parameters": ("lit", mk_field(("in", "signature"), "0")), "return_type": ("lit", mk_field(("in", "signature"), "1"))})
     n = R2.check_twins(fx, rep, "C16.5")
     rep.floor("C16.5", n, 6, "twin pairs")
